@@ -29,7 +29,7 @@ const kfCollide = "KF-C14-01"
 const poolSize = 900
 
 type pools struct {
-	plain    []string // no two names share a hash
+	plain     []string // no two names share a hash
 	colliding [][2]string
 }
 
@@ -69,12 +69,12 @@ var getPools = sync.OnceValue(func() pools {
 // ---- case --------------------------------------------------------------------------------------
 
 type Op struct {
-	K string `json:"k"`           // ins upd del search fill writeload writeat lazy_on lazy_off force inc_on inc_off rebalance
-	N int    `json:"n,omitempty"` // name index into the case's name table, or a count for fill
-	V uint64 `json:"v,omitempty"` // heap id (< 2^56)
-	D int    `json:"d,omitempty"` // delete variant 0 DeleteRecord 1 WithRebalancing 2 Lazy
+	K string  `json:"k"`           // ins upd del search fill writeload writeat snapshot lazy_on lazy_off force inc_on inc_off rebalance
+	N int     `json:"n,omitempty"` // name index into the case's name table, a count for fill, or the node size of the object loaded into (writeload/writeat, 0 = same)
+	V uint64  `json:"v,omitempty"` // heap id (< 2^56)
+	D int     `json:"d,omitempty"` // delete variant 0 DeleteRecord 1 WithRebalancing 2 Lazy
 	T float64 `json:"t,omitempty"` // lazy threshold
-	I int    `json:"i,omitempty"` // incremental interval in microseconds
+	I int     `json:"i,omitempty"` // incremental interval in microseconds
 }
 
 type Case struct {
@@ -121,7 +121,7 @@ func genCase(t *rapid.T) Case {
 	nameGen := rapid.OneOf(rapid.IntRange(0, hot-1), rapid.IntRange(0, hot-1), rapid.IntRange(0, win-1), rapid.IntRange(0, win-1), rapid.IntRange(0, nNames-1))
 	valGen := rapid.OneOf(rapid.Uint64Range(0, 1<<56-1), rapid.SampledFrom([]uint64{0, 1, 0xFF, 1<<56 - 1, 0x00FFFFFFFFFFFF00}))
 	opGen := rapid.Custom(func(t *rapid.T) Op {
-		k := rapid.SampledFrom([]string{"ins", "ins", "ins", "ins", "upd", "upd", "del", "del", "del", "search", "fill", "writeload", "writeat",
+		k := rapid.SampledFrom([]string{"ins", "ins", "ins", "ins", "upd", "upd", "del", "del", "del", "search", "fill", "writeload", "writeat", "snapshot",
 			"lazy_on", "lazy_off", "force", "inc_on", "inc_off", "rebalance"}).Draw(t, "k")
 		op := Op{K: k}
 		switch k {
@@ -133,6 +133,9 @@ func genCase(t *rapid.T) Case {
 			op.D = rapid.IntRange(0, 2).Draw(t, "variant")
 		case "search":
 			op.N = nameGen.Draw(t, "n")
+		case "writeload", "writeat":
+			// node size of the object the image is loaded into: the stored header decides, not the constructor argument
+			op.N = rapid.SampledFrom([]int{0, 0, 64, 128, 512, 4096}).Draw(t, "loadInto")
 		case "fill":
 			op.N = rapid.IntRange(1, capacity+3).Draw(t, "count")
 			op.V = valGen.Draw(t, "v")
@@ -262,18 +265,18 @@ func decodeImage(f *memf.File, hdrAddr uint64, offSize int) (recs []imgRec, nroo
 // ---- the property ------------------------------------------------------------------------------
 
 type state struct {
-	c       Case
-	names   []string
-	bt      *structures.WritableBTreeV2
-	model   map[string]uint64
-	sb      *core.Superblock
-	file    *memf.File
-	hdrAddr uint64
-	loaded  bool
-	lazy    bool
-	inc     bool
+	c             Case
+	names         []string
+	bt            *structures.WritableBTreeV2
+	model         map[string]uint64
+	sb            *core.Superblock
+	file          *memf.File
+	hdrAddr       uint64
+	loaded        bool
+	lazy          bool
+	inc           bool
 	collisionLive bool // two live (or ever co-resident) names share a hash
-	hashes  map[uint32]int
+	hashes        map[uint32]int
 }
 
 func id7(v uint64) [7]byte {
@@ -439,7 +442,11 @@ func (s *state) writeAndReload(step int, op Op, inPlace bool) *vt.Verdict {
 	}
 	// load into a fresh tree and continue the history with it
 	s.stopBackground()
-	nt := structures.NewWritableBTreeV2(s.c.NodeSize)
+	into := s.c.NodeSize
+	if op.N > 0 {
+		into = uint32(op.N) // the library itself always constructs a 4096-byte tree object and then loads whatever the file holds
+	}
+	nt := structures.NewWritableBTreeV2(into)
 	if err := nt.LoadFromFile(s.file, s.hdrAddr, s.sb); err != nil {
 		return bad("LoadFromFile of freshly written tree: %v", err)
 	}
@@ -572,6 +579,33 @@ func run(c Case) vt.Verdict {
 		case "writeat":
 			if v := s.writeAndReload(step, op, true); v != nil {
 				return *v
+			}
+		case "snapshot":
+			// a copy of a loaded tree written elsewhere (WriteToFile) while the tree keeps being rewritten in place at the
+			// address it was loaded from: the copy holds the current records, and later in-place writes still describe
+			// the tree at its own address
+			if !s.loaded {
+				continue
+			}
+			a, err := s.bt.WriteToFile(s.file, s.file, s.sb)
+			if err != nil {
+				return vt.Bad("step %d (snapshot): WriteToFile of a loaded tree: %v", step, err)
+			}
+			recs, _, _, _, err := decodeImage(s.file, a, int(s.sb.OffsetSize))
+			if err != nil {
+				return vt.Bad("step %d (snapshot): the copy does not decode: %v", step, err)
+			}
+			cur := s.bt.GetRecords()
+			if len(recs) != len(cur) {
+				if s.collisionLive {
+					return vt.KnownOr(kfCollide, "step %d (snapshot): copy holds %d records, tree %d", step, len(recs), len(cur))
+				}
+				return vt.Bad("step %d (snapshot): copy holds %d records, tree %d", step, len(recs), len(cur))
+			}
+			for i, r := range recs {
+				if r.hash != cur[i].NameHash || r.id != cur[i].HeapID {
+					return vt.Bad("step %d (snapshot): copy record %d = (%#x,%x), in-memory (%#x,%x)", step, i, r.hash, r.id, cur[i].NameHash, cur[i].HeapID)
+				}
 			}
 		case "lazy_on":
 			cfg := structures.DefaultLazyConfig()
@@ -736,7 +770,9 @@ func TestProp(t *testing.T) {
 	vt.Run(t, prop,
 		vt.Func[HashCase]{Name: "hash-short", One: runHash, Body: hashExhaustive},
 		vt.Sub[HashCase]{Prop: prop, Name: "hash", Gen: genHash, Run: runHash,
-			Classify: func(c HashCase) (bool, []string) { return len(c.Name) > 0, []string{fmt.Sprintf("len%%12=%d", len(c.Name)%12)} }}.WithBudget(100000, 1500000),
+			Classify: func(c HashCase) (bool, []string) {
+				return len(c.Name) > 0, []string{fmt.Sprintf("len%%12=%d", len(c.Name)%12)}
+			}}.WithBudget(100000, 1500000),
 		vt.Sub[Case]{Prop: prop, Name: "history", Gen: genCase, Run: run, Classify: classify}.WithBudget(30000, 150000),
 	)
 }
